@@ -5,7 +5,7 @@ import itertools
 
 import numpy as np
 
-from checks.common import hash_tag
+from checks.common import hash_tag, relayout
 from qmc import gen as G
 from qmc import oracle as O
 from qmc.loader import load
@@ -67,6 +67,12 @@ def cases(tier, seed):
         for r in range(0, min(m, n) + 1):
             for row in range(rows):
                 out.append({"key": f"lowrank/{m}x{n}/r={r}/row={row}", "kind": "lowrank", "m": m, "n": n, "r": r, "row": row})
+        for lay in ("F", "T", "view"):  # same matrix, different memory layout
+            out.append({"key": f"layout/{m}x{n}/{lay}", "kind": "layout", "m": m, "n": n, "cls": "generic", "row": 0, "lay": lay})
+        # graded inputs: a tiny (2^-45 relative) but non-zero pivot in the middle of the elimination
+        for kpos in range(min(m, n)):
+            out.append({"key": f"graded-triu/{m}x{n}/k={kpos}", "kind": "graded", "sub": "triu", "m": m, "n": n, "cls": "generic", "row": 0, "kpos": kpos})
+            out.append({"key": f"graded-col/{m}x{n}/k={kpos}", "kind": "graded", "sub": "col", "m": m, "n": n, "cls": "ints", "row": 0, "kpos": kpos})
         for e in (-50, 40):
             out.append({"key": f"scaled/{m}x{n}/2^{e}", "kind": "scaled", "m": m, "n": n, "cls": "generic", "row": 0, "e": e})
             out.append({"key": f"scaled-zero-col/{m}x{n}/2^{e}", "kind": "scaled", "m": m, "n": n, "cls": "ints", "row": 0, "e": e, "zc": 0})
@@ -83,6 +89,20 @@ def run_case(case, seed):
             A = np.zeros((m, n, 4))
         else:
             A = O.qmatmul(fill.quat(m, r, bits=2, lo=-6, hi=6), fill.quat(r, n, bits=2, lo=-6, hi=6))
+    elif case["kind"] == "layout":
+        A = base_matrix(case["cls"], m, n, fill)
+    elif case["kind"] == "graded":
+        A = base_matrix(case["cls"], m, n, fill)
+        if case["sub"] == "triu":
+            for i in range(m):
+                A[i, : min(i, n)] = 0.0
+                if i < n and not A[i, i].any():
+                    A[i, i, 0] = 1.0
+            A[case["kpos"], case["kpos"]] *= 2.0 ** -45
+        else:
+            if not A[:, case["kpos"]].any():
+                A[0, case["kpos"], 0] = 1.0
+            A[:, case["kpos"]] *= 2.0 ** -45
     elif case["kind"] == "scaled":
         A = np.ldexp(base_matrix(case["cls"], m, n, fill), case["e"])
         if "zc" in case:
@@ -106,7 +126,7 @@ def run_case(case, seed):
     lead_dep = nz_lead - lead_rk
     tags = {"wide": m < n, "coldef": n - rk, "rank": rk, "lead_def": k - lead_rk, "lead_dep": lead_dep,
             "finding_zone": bool(lead_dep >= 1 or (m < n and k - lead_rk >= 1)), "kind": case["kind"], "m": m, "n": n}
-    Aq = G.to_quat(A)
+    Aq = relayout(G.to_quat(A), case.get("lay", "C"))
     before = Aq.tobytes()
     ok, res = call(lib.qsvd.qr_qua, Aq)
     fails = []
